@@ -106,6 +106,20 @@ func genDbCase(c *Ctx, backend, dom string) string {
 		}
 		ops = append(ops, fmt.Sprintf("P:%d", tb), "S:"+hxs(sb), fmt.Sprintf("G:%s:-", k), fmt.Sprintf("P:%d", ta), "S:"+hxs(sa), fmt.Sprintf("G:%s:-", k))
 	}
+	if dom == "wf" && r.Intn(4) == 0 {
+		// a translation and a default entry of one key, read back under the language, under another language and without one
+		t := []int{2, 4, 8}[r.Intn(3)]
+		l := []string{"nor", "eng", "swa"}[r.Intn(3)]
+		other := []string{"nor", "eng", "swa", "fra"}[r.Intn(4)]
+		k := hxs(keys[r.Intn(len(keys)-2)])
+		ops = append(ops, fmt.Sprintf("K:%d:0", t), fmt.Sprintf("P:%d", t))
+		w := []string{fmt.Sprintf("W:%s:%s:%s", k, hxs("translated-"+l), hxs(l)), fmt.Sprintf("W:%s:%s:-", k, hxs("default-entry"))}
+		if r.Intn(2) == 0 {
+			w[0], w[1] = w[1], w[0]
+		}
+		ops = append(ops, w...)
+		ops = append(ops, fmt.Sprintf("G:%s:%s", k, hxs(l)), fmt.Sprintf("G:%s:%s", k, hxs(other)), fmt.Sprintf("G:%s:-", k))
+	}
 	if dom == "adv" && r.Intn(4) == 0 {
 		// a key crafted to spell another session's file name: (type t, session s, key k) is stored as chr(0x30+t) s.k;
 		// a different session asks for the key "chr(0x30+t) s.k" (and for the persisted-state name "@s.s")
